@@ -40,7 +40,9 @@ COMPONENTS = {
 def generate(seed: int, tier: str) -> dict:
     st = Streams(seed)
     wr = st["world"]
-    profile = weighted(wr, [("acyclic", 5), ("spiral", 5)])
+    # spiral_cyclic: quasi-circular chains *and* a true cycle, so that some requests
+    # fail part-way after a spiral was cut (the purge must happen then too)
+    profile = weighted(wr, [("acyclic", 5), ("spiral", 4), ("spiral_cyclic", 1.5)])
     world = gen_world(wr, discipline=profile, n_vars=wr.randint(4, 10 if tier == "quick" else 14), max_depth=2)
     ir = st["inputs"]
     situation = gen_situation(ir, world, max_persons=5)
